@@ -4,6 +4,7 @@ import (
 	"bytes"
 	"context"
 	"fmt"
+	"runtime/debug"
 	"sort"
 	"strings"
 	"time"
@@ -371,13 +372,21 @@ func init() {
 			return time.Time{}, strings.HasPrefix(out, "ok")
 		}
 		appBeforeCommit = nil
-		fin := make(chan struct{})
-		go func() { call(); close(fin) }()
+		fin := make(chan any, 1)
+		go func() {
+			// a fault or panic in Lightning Stream's goroutine is handed to the caller, where
+			// implStep's recover and fault hook deal with it
+			defer debug.SetPanicOnFault(debug.SetPanicOnFault(true))
+			defer func() { fin <- recover() }()
+			call()
+		}()
 		time.Sleep(2 * time.Millisecond) // Lightning Stream reaches env.Update and waits
 		commitAt = time.Now()
 		close(hold)
 		out := <-done
-		<-fin
+		if r := <-fin; r != nil {
+			panic(r)
+		}
 		return commitAt, strings.HasPrefix(out, "ok")
 	}
 	implOps["txn.loadheld"] = func(a []string) string {
